@@ -2,7 +2,7 @@
    Statements only; proofs in Gen/ConfigThm.v, ConfigThm2.v, ConfigThmAlias.v.  The leaf rule
    (DefaultValue.assign_to_if_not_default), the body of deep_update, cpp _validate_language_options,
    the cpp option groups and the CLI wiring are regenerated from /repo into Generated/Gen_C13.v. *)
-From Verif Require Import Config ConfigAlias ConfigThm ConfigThm2 ConfigThmAlias.
+From Verif Require Import Config ConfigAlias ConfigThm ConfigThm2 ConfigThm3 ConfigThmAlias.
 Require Import List Bool.
 Import ListNotations.
 Open Scope N_scope.
@@ -177,6 +177,38 @@ Theorem c13_context_stability_live : context_stability_statement create_detaches
 Proof. exact (context_stability_all create_detaches_config). Qed.
 Print Assumptions c13_context_stability_live.
 
+(* getters of LanguageConfig (shapes pinned from the source): what they return for each documented value form *)
+Theorem c13_as_bool_truth_table : forall sections section k dflt,
+  config_value_as_bool sections section k dflt =
+  match config_lookup sections section k with
+  | None => CfgOk dflt
+  | Some (Leaf _ a) => match bool_table a with Some b => CfgOk b | None => CfgUnmodelled end
+  | Some (Node _) => CfgUnmodelled
+  end.
+Proof. exact as_bool_truth_table. Qed.
+Print Assumptions c13_as_bool_truth_table.
+
+Theorem c13_config_value_spec : forall sections section k dflt,
+  config_value sections section k dflt =
+  match config_lookup sections section k with
+  | None => match dflt with Some d => CfgOk d | None => CfgKeyError end
+  | Some (Leaf _ ANone) => CfgOk []
+  | Some (Leaf _ a) => match py_str a with Some s => CfgOk s | None => CfgUnmodelled end
+  | Some (Node _) => CfgUnmodelled
+  end.
+Proof. exact config_value_spec. Qed.
+Print Assumptions c13_config_value_spec.
+
+Theorem c13_config_value_as_dict_spec : forall sections section k dflt,
+  config_value_as_dict sections section k dflt =
+  match config_lookup sections section k with
+  | Some (Node m) => CfgOk m
+  | Some (Leaf _ _) => match dflt with Some d => CfgOk d | None => CfgTypeError end
+  | None => match dflt with Some d => CfgOk d | None => CfgKeyError end
+  end.
+Proof. exact config_value_as_dict_spec. Qed.
+Print Assumptions c13_config_value_as_dict_spec.
+
 (* ---- non-vacuity: the hypotheses are satisfiable and the conclusions discriminate ---------------- *)
 Definition ex_base : cv := Node [([97], Leaf true (AInt 1)); ([98], Leaf false (AInt 2)); ([110], Node [([120], Leaf false (AInt 0))])].
 Definition ex_s1 : cv := Node [([97], Leaf false (AInt 3)); ([98], Leaf true (AInt 4))].
@@ -219,3 +251,11 @@ Example c13_ex_cli_default_kept :   (* file says enable_serialization_asserts: t
   | None => False
   end.
 Proof. vm_compute. reflexivity. Qed.
+
+Example c13_ex_bool_table :   (* true, "False", "FALSE", "0", 0, "", None, "no" (truthy!), 12, -3, DefaultValue(True) *)
+  map bool_table [ABool true; AStr [70; 97; 108; 115; 101]; AStr [70; 65; 76; 83; 69]; AStr [48]; AInt 0; AStr []; ANone;
+                  AStr [110; 111]; AInt 12; AInt (-3)]
+  = [Some true; Some false; Some false; Some false; Some false; Some false; Some false; Some true; Some true; Some true]
+  /\ config_value_as_bool [([115], Node [([107], Leaf true (ABool true))])] [115] [107] false = CfgOk true
+  /\ config_value [([115], Node [([107], Leaf false (AInt (-305)))])] [115] [107] None = CfgOk [45; 51; 48; 53].
+Proof. vm_compute. auto. Qed.
